@@ -13,6 +13,7 @@ var Registry = map[string]func(*Ctx){
 	"C05": C05,
 	"C06": C06,
 	"C08": C08,
+	"C09": C09,
 	"C10": C10,
 	"C11": C11,
 	"C12": C12,
